@@ -26,6 +26,13 @@ BASE_ISA = {
         'rel': {'operand_values': {'r': {'type': 'relative_address', 'argument': {'size': 8, 'byte_align': True, 'min': -128, 'max': 127}}}},
         'rel_end': {'operand_values': {'r': {'type': 'relative_address', 'offset_from_instruction_end': True,
                                              'argument': {'size': 8, 'byte_align': True, 'min': -128, 'max': 127}}}},
+        # a jump target written {expr} is relative, written bare it is absolute: the braces are part of the operand text
+        'relc': {'operand_values': {'rc': {'type': 'relative_address', 'use_curly_braces': True, 'bytecode': {'value': 2, 'size': 4},
+                                           'argument': {'size': 8, 'byte_align': True, 'min': -128, 'max': 127}}}},
+        'target': {'operand_values': {
+            'abs': {'type': 'numeric', 'bytecode': {'value': 1, 'size': 4}, 'argument': {'size': 16, 'byte_align': True}},
+            'rc': {'type': 'relative_address', 'use_curly_braces': True, 'bytecode': {'value': 2, 'size': 4},
+                   'argument': {'size': 8, 'byte_align': True, 'min': -128, 'max': 127}}}},
         'ind': {'operand_values': {'in': {'type': 'indirect_numeric', 'argument': {'size': 16, 'byte_align': True}}}},
         'enum': {'operand_values': {'e': {'type': 'enumeration', 'bytecode': {'size': 4, 'value_dict': {'foo': 3, 'bar': 5}},
                                           'argument': {'size': 4, 'byte_align': False, 'value_dict': {'foo': 3, 'bar': 5}}}}},
@@ -40,6 +47,7 @@ BASE_ISA = {
         'ldm': {'bytecode': {'value': 0x5, 'size': 4}, 'operands': {'count': 1, 'operand_sets': {'list': ['ind']}}},
         'sel': {'bytecode': {'value': 0x6, 'size': 4}, 'operands': {'count': 1, 'operand_sets': {'list': ['enum']}}},
         'push': {'bytecode': {'value': 0x7, 'size': 4}, 'operands': {'count': 1, 'operand_sets': {'list': ['reg']}}},
+        'jt': {'bytecode': {'value': 0xC, 'size': 4}, 'operands': {'count': 1, 'operand_sets': {'list': ['target']}}},
     },
 }
 
@@ -50,6 +58,7 @@ NUMS = [('5', '5', None), ('start', 'start', None), ('fwd', 'fwd', None), ('fwd+
 REGOPS = [('a', None, 'a'), ('b', None, 'b')]
 INDS = [('[fwd]', 'fwd', None), ('[ start + 2 ]', 'start + 2', None)]
 ENUMS = [('foo', None, None), ('bar', None, None)]
+CURLIES = [('{fwd}', 'fwd', None), ('{ start }', 'start', None), ('{fwd+1}', 'fwd+1', None)]
 PATTERNS = {
     'ri': (['reg', 'imm'], [REGOPS, NUMS]),
     'i': (['imm'], [NUMS]),
@@ -57,6 +66,7 @@ PATTERNS = {
     'n': (['ind'], [INDS]),
     'e': (['enum'], [ENUMS]),
     'ir': (['imm', 'reg'], [NUMS, REGOPS]),
+    'c': (['relc'], [CURLIES]),
 }
 # step templates usable with each pattern; 'BAD' marks templates whose placeholder cannot be filled
 TEMPLATES = {
@@ -67,6 +77,7 @@ TEMPLATES = {
     'n': ['ldm @OP(0)', 'ldm [@ARG(0)]', 'jmp @ARG(0)', 'n12 3', 'brr @ARG(0)'],
     'e': ['sel @OP(0)', 'n12 1', 'nop'],
     'ir': ['ldi @REG(1), @ARG(0)', 'ldi @OP(1), @OP(0)', 'brr @ARG(0)', 'n12 @ARG(0)'],
+    'c': ['jt @OP(0)', 'jt {@ARG(0)}', 'jt @ARG(0)', 'brr @ARG(0)', 'nop'],
 }
 BAD_TEMPLATES = {
     'ri': ['push @REG(1)', 'n12 @ARG(0)', 'n12 @ARG(2)', 'push @OP(2)', 'push @REG(2)'],
